@@ -140,8 +140,15 @@ fn get_text_position(element: &mut SvgElement) -> Result<(f32, f32, bool, LocSpe
     // Assumption is that text should be centered within the rect,
     // and has styling via CSS to reflect this, e.g.:
     //  text.d-text { dominant-baseline: central; text-anchor: middle; }
-    let (mut tdx, mut tdy) = element
-        .bbox()?
+    // A <text> element keeps its own `transform`, so it is anchored in its own user
+    // space; text generated for a shape does not get the shape's transform, so it
+    // is placed where the transformed shape is.
+    let anchor_bbox = if element.name == "text" {
+        element.local_bbox()?
+    } else {
+        element.bbox()?
+    };
+    let (mut tdx, mut tdy) = anchor_bbox
         .ok_or_else(|| SvgdxError::MissingBoundingBox(element.to_string()))?
         .locspec(text_anchor);
     tdx += t_dx;
